@@ -1887,6 +1887,6 @@ func main() {
 			}
 		}
 	}
-	out.Extra["rule"] = "a case is ONE step on a table of 0..n rows over keys 1..4 (+ rowid-assigned keys): Save(v) | Omit(subset of name,age,email,updated_at in column or field spelling).Save(v) on stored, soft-deleted, missing and zero keys with zero-valued fields | Create+OnConflict rule on a slice (Create(&slice) or CreateInBatches) | Save(&ptr) | Save(&slice of 2-4 values mixing stored keys, fresh keys and zero keys in any order; the slice handed back is compared element by element and is saved again by a later step; RETURNING dialect) | Create+OnConflict{DoNothing, DoUpdates(subset of name,age,email,updated_at,deleted_at), UpdateAll}(v), optionally conditional (OnConflict.Where = stored age < k on DoUpdates/UpdateAll, OnConflict.TargetWhere = age < k; colliding rows on both sides of the condition) | the same rules, with and without explicit Columns=[id], on a stand-alone table with a second (partial) UNIQUE index on e-mails starting with 'u' and incoming rows whose e-mail is free, their own or held by another (live or soft-deleted) row | histories (1 in 8) of Save / Save(&slice) / Create+OnConflict (DoNothing, DoUpdates, UpdateAll with the explicit (id, region) target or the DEFAULT one) / FirstOrCreate on two model types with a COMPOSITE primary key over {1,2} x {eu,us} — Stock{ID, Region} (ID is the prioritized member) and Lot{TenantID, Code} (no prioritized member): collisions on the full key and on one member only, and values with ONE zero-valued key member (0 / "") whose other member stored rows share (stored rows never have a zero-valued member) | the same rules on MAP values, Model(&Acct{}).Clauses(rule).Create(map | *map | []map (no-RETURNING dialect) | *[]map of 1-3 maps), every map naming its own subset of id/name/age/email/updated_at/created_at/deleted_at in column or field spelling, keys stored / soft-deleted / fresh / absent | FirstOrInit | FirstOrCreate, preceded by a chain of Unscoped() (1 chain in 4, at any position, conditions then aimed at a soft-deleted row 3 times in 4) / Where(struct|map|raw 'age > ?') / Attrs / Assign (struct by value or by pointer, map in column or field spelling, key-value; 1-2 arguments) in any order with Session / WithContext inserted at chain positions (Session with every result-neutral option: none, SkipDefaultTransaction, QueryFields, CreateBatchSize, Logger, NowFunc, DisableNestedTransaction, FullSaveAssociations, PropagateUnscoped; statement-cloning forms WithContext, Session{Context}, Session{PrepareStmt}); the last chain condition may come through Scopes(...); steps are chained into histories of 6..12 steps on the evolving table with soft/hard deletions in between; v is fresh (key 0 or 1..4) or a previously stored row edited. Session/WithContext are inserted at EVERY chain position, also after Attrs/Assign (stream session-after-attrs forces that shape, the fixed finding clone-drops-attrs). Stream update-all-nothing-where forces the shape of the fixed finding (maps naming only key/created_at under UpdateAll+Where: DO NOTHING takes no condition, /repo b84cf7b). Domain: at most one Attrs and one Assign per chain, key-value form alone, two-argument forms in column spelling, Attrs/Assign keys among name/age/email, type-correct values, one inline condition. distinct = distinct (finisher, rule+cols, collision kind, chain form, inline form, RowsAffected, writes, error, table size); non-trivial = the value's key collides with a stored row (Save/upsert; a map's key is stored) or the chain has a condition and a non-empty Attrs/Assign on a non-empty table (FirstOr*)."
+	out.Extra["rule"] = "a case is ONE step on a table of 0..n rows over keys 1..4 (+ rowid-assigned keys): Save(v) | Omit(subset of name,age,email,updated_at in column or field spelling).Save(v) on stored, soft-deleted, missing and zero keys with zero-valued fields | Create+OnConflict rule on a slice (Create(&slice) or CreateInBatches) | Save(&ptr) | Save(&slice of 2-4 values mixing stored keys, fresh keys and zero keys in any order; the slice handed back is compared element by element and is saved again by a later step; RETURNING dialect) | Create+OnConflict{DoNothing, DoUpdates(subset of name,age,email,updated_at,deleted_at), UpdateAll}(v), optionally conditional (OnConflict.Where = stored age < k on DoUpdates/UpdateAll, OnConflict.TargetWhere = age < k; colliding rows on both sides of the condition) | the same rules, with and without explicit Columns=[id], on a stand-alone table with a second (partial) UNIQUE index on e-mails starting with 'u' and incoming rows whose e-mail is free, their own or held by another (live or soft-deleted) row | histories (1 in 8) of Save / Save(&slice) / Create+OnConflict (DoNothing, DoUpdates, UpdateAll with the explicit (id, region) target or the DEFAULT one) / FirstOrCreate on two model types with a COMPOSITE primary key over {1,2} x {eu,us} — Stock{ID, Region} (ID is the prioritized member) and Lot{TenantID, Code} (no prioritized member): collisions on the full key and on one member only, and values with ONE zero-valued key member (0 / empty string) whose other member stored rows share (stored rows never have a zero-valued member) | the same rules on MAP values, Model(&Acct{}).Clauses(rule).Create(map | *map | []map (no-RETURNING dialect) | *[]map of 1-3 maps), every map naming its own subset of id/name/age/email/updated_at/created_at/deleted_at in column or field spelling, keys stored / soft-deleted / fresh / absent | FirstOrInit | FirstOrCreate, preceded by a chain of Unscoped() (1 chain in 4, at any position, conditions then aimed at a soft-deleted row 3 times in 4) / Where(struct|map|raw 'age > ?') / Attrs / Assign (struct by value or by pointer, map in column or field spelling, key-value; 1-2 arguments) in any order with Session / WithContext inserted at chain positions (Session with every result-neutral option: none, SkipDefaultTransaction, QueryFields, CreateBatchSize, Logger, NowFunc, DisableNestedTransaction, FullSaveAssociations, PropagateUnscoped; statement-cloning forms WithContext, Session{Context}, Session{PrepareStmt}); the last chain condition may come through Scopes(...); steps are chained into histories of 6..12 steps on the evolving table with soft/hard deletions in between; v is fresh (key 0 or 1..4) or a previously stored row edited. Session/WithContext are inserted at EVERY chain position, also after Attrs/Assign (stream session-after-attrs forces that shape, the fixed finding clone-drops-attrs). Stream update-all-nothing-where forces the shape of the fixed finding (maps naming only key/created_at under UpdateAll+Where: DO NOTHING takes no condition, /repo b84cf7b). Domain: at most one Attrs and one Assign per chain, key-value form alone, two-argument forms in column spelling, Attrs/Assign keys among name/age/email, type-correct values, one inline condition. distinct = distinct (finisher, rule+cols, collision kind, chain form, inline form, RowsAffected, writes, error, table size); non-trivial = the value's key collides with a stored row (Save/upsert; a map's key is stored) or the chain has a condition and a non-empty Attrs/Assign on a non-empty table (FirstOr*)."
 	lib.Must(out.Flush())
 }
